@@ -111,15 +111,16 @@ FAMILIES = ("gnp", "tree", "cycle", "star", "union", "sparse", "double")
 
 
 def skeleton(tp: Tape, cls, nmax=8, family=None, ids_mode=None, kmax=4,
-             wide=False, nmin=0, max_deg=6):
+             wide=False, nmin=0, max_deg=6, alpha=None):
     m = Model(cls)
     if family is None:
         family = FAMILIES[tp.weighted([5, 4, 3, 4, 2, 2, 3])]
     if family == "double":
-        return _double(tp, cls, nmax, ids_mode, kmax)
+        return _double(tp, cls, nmax, ids_mode, kmax, alpha)
     n = nmin + tp.below(nmax - nmin + 1)
     ids = draw_ids(tp, n, ids_mode)
-    alpha = draw_alphabet(tp, kmax, wide)
+    if alpha is None:
+        alpha = draw_alphabet(tp, kmax, wide)
     for a in ids:
         m.add_atom(a, tp.pick(alpha))
     deg = {a: 0 for a in ids}
@@ -171,11 +172,12 @@ def skeleton(tp: Tape, cls, nmax=8, family=None, ids_mode=None, kmax=4,
     return m
 
 
-def _double(tp, cls, nmax, ids_mode, kmax):
+def _double(tp, cls, nmax, ids_mode, kmax, alpha=None):
     """a fragment glued to a renamed copy of itself: large automorphism
     groups, meso / chiral diastereomers once decorated"""
     half = skeleton(tp, cls, max(2, nmax // 2), family=tp.pick(
-        ["tree", "star", "cycle"]), ids_mode=0, kmax=kmax, nmin=2)
+        ["tree", "star", "cycle"]), ids_mode=0, kmax=kmax, nmin=2,
+        alpha=alpha)
     n = len(half.atoms)
     ids = draw_ids(tp, 2 * n, ids_mode)
     m = Model(cls)
@@ -343,10 +345,11 @@ def attributes(tp: Tape, m: Model, p=40):
 
 def gen_model(tp: Tape, cls=None, nmax=8, none_parity=0, attrs=False,
               family=None, ids_mode=None, kmax=4, wide=False, nmin=0,
-              p_atom=150, p_bond=80, p_role=70, p_change=110):
+              p_atom=150, p_bond=80, p_role=70, p_change=110, alpha=None):
     if cls is None:
         cls = tp.pick(["MG", "SMG", "CRG", "SCRG"])
-    m = skeleton(tp, cls, nmax, family, ids_mode, kmax, wide, nmin)
+    m = skeleton(tp, cls, nmax, family, ids_mode, kmax, wide, nmin,
+                 alpha=alpha)
     assign_roles(tp, m, p_role)
     decorate(tp, m, p_atom, p_bond, none_parity, p_change)
     if attrs:
@@ -447,7 +450,19 @@ MUTATIONS = ("element", "add-bond", "del-bond", "move-bond", "role",
 
 
 def mutate(tp: Tape, m: Model):
-    """-> (mutant model, kind) or (None, None) if not applicable"""
+    """-> (mutant model, kind) or (None, None) if not applicable; the mutant
+    stays inside the generated domain (descriptors valid by construction)"""
+    from vp.model import validity_error
+    for _ in range(4):
+        m2, kind = _mutate(tp, m)
+        if m2 is None:
+            return None, None
+        if validity_error(m2) is None:
+            return m2, kind
+    return None, None
+
+
+def _mutate(tp: Tape, m: Model):
     m = m.copy()
     kinds = tp.shuffle(MUTATIONS)
     atoms = list(m.atoms)
@@ -459,9 +474,11 @@ def mutate(tp: Tape, m: Model):
             m.atoms[a]["atom_type"] = tp.pick(pool)
             return m, kind
         if kind == "add-bond" and len(atoms) >= 2:
+            cen = _centres(m)
             for _ in range(6):
                 a, b = tp.pick(atoms), tp.pick(atoms)
-                if a != b and frozenset((a, b)) not in m.bonds:
+                if a != b and frozenset((a, b)) not in m.bonds \
+                        and a not in cen and b not in cen:
                     m.add_bond(a, b)
                     return m, kind
         if kind == "del-bond" and m.bonds:
@@ -474,15 +491,20 @@ def mutate(tp: Tape, m: Model):
             if _mentions_bond(m, b):
                 continue
             x, y = sorted(b)
+            cen = _centres(m)
+            if x in cen:
+                continue
             for _ in range(6):
                 z = tp.pick(atoms)
-                if z not in b and frozenset((x, z)) not in m.bonds:
+                if z not in b and frozenset((x, z)) not in m.bonds \
+                        and z not in cen:
                     at = m.bonds.pop(b)
                     m.bonds[frozenset((x, z))] = at
                     return m, kind
         if kind == "role" and m.is_reaction and m.bonds:
             b = tp.pick(sorted(m.bonds, key=sorted))
-            if _mentions_bond(m, b, changes_only=True):
+            if _mentions_bond(m, b, changes_only=True) or (
+                    b & _centres(m, changes_only=True)):
                 continue
             cur = m.bonds[b].get("reaction")
             new = tp.pick([r for r in (None,) + ROLES if r != cur])
@@ -551,6 +573,18 @@ def mutate(tp: Tape, m: Model):
                     table[key][tp.pick(free)] = table[key].pop(role)
                     return m, kind
     return None, None
+
+
+def _centres(m, changes_only=False):
+    out = set()
+    for kd, key, role, d in m.all_descs():
+        if changes_only and role is None:
+            continue
+        if d[0] in sym.ATOM_CLASSES:
+            out.add(d[1][0])
+        else:
+            out.update(d[1][2:4])
+    return out
 
 
 def _mentions_bond(m, b, changes_only=False):
